@@ -20,7 +20,7 @@
 (declare-fun sconcat (Str Str) Str)
 (assert (forall ((a Str) (b Str)) (! (= (slen (sconcat a b)) (+ (slen a) (slen b))) :pattern ((sconcat a b)))))
 (declare-fun ssub (Str Int Int) Str)   ; s[lo:hi]
-(assert (forall ((s Str) (lo Int) (hi Int)) (! (= (slen (ssub s lo hi)) (- hi lo)) :pattern ((ssub s lo hi)))))
+(assert (forall ((s Str) (lo Int) (hi Int)) (! (=> (<= lo hi) (= (slen (ssub s lo hi)) (- hi lo))) :pattern ((ssub s lo hi)))))   ; guarded (w-c12): unguarded it contradicts slen >= 0 for hi < lo
 (assert (forall ((s Str) (lo Int) (hi Int) (i Int)) (! (= (sat (ssub s lo hi) i) (sat s (+ lo i))) :pattern ((sat (ssub s lo hi) i)))))
 (declare-fun slt (Str Str) Bool)       ; lexicographic byte order
 ; Go integer division / remainder (truncated)
@@ -42,3 +42,10 @@
 (assert (forall ((s Str) (i Int)) (! (and (<= 0 (runeAt s i)) (<= (runeAt s i) 1114111)) :pattern ((runeAt s i)))))
 (assert (forall ((s Str) (i Int)) (! (=> (< (sat s i) 128) (and (= (runeAt s i) (sat s i)) (= (runeWidth s i) 1))) :pattern ((runeAt s i)))))
 (assert (forall ((s Str) (i Int)) (! (=> (and (<= 0 i) (< i (slen s))) (<= (+ i (runeWidth s i)) (slen s))) :pattern ((runeWidth s i)))))
+; all-zero rows for freshly made slices of interface / string / func elements
+(declare-fun zeroRowV () (Array Int Val))
+(assert (forall ((i Int)) (! (= (select zeroRowV i) nilVal) :pattern ((select zeroRowV i)))))
+(declare-fun zeroRowS () (Array Int Str))
+(assert (forall ((i Int)) (! (= (select zeroRowS i) emptyStr) :pattern ((select zeroRowS i)))))
+(declare-fun zeroRowFn () (Array Int Fn))
+(assert (forall ((i Int)) (! (= (select zeroRowFn i) nilFn) :pattern ((select zeroRowFn i)))))
